@@ -1,11 +1,132 @@
-From Coq Require Import List ZArith Bool.
-From V Require Import lib.Verdict lib.C11_DagPb model.M_C11 proofs.P_C11.
+(** C11 — dag-pb nodes encode canonically and never expose a stale CID.
+    This file contains ONLY the property theorems, each closed by [exact] of a
+    lemma of proofs/P_C11*.v, with [Print Assumptions] beneath it.
+
+    Model: model/M_C11.v (ProtoNode with its encoded/cached-CID caches, transcribed
+    from ipld/merkledag/node.go + coding.go) over the wire format lib/C11_DagPb.v
+    (protowire varints, go-codec-dagpb encoder/decoder, go-cid CidFromBytes,
+    stable sort by name); both are tied to /repo on every run by ./check C11.
+
+    [H : builder -> bytes -> cid] is ANY hash; the theorems hold for all of them.
+    [hist_ok] (P_C11.v) only states what Go's types guarantee about a history:
+    link CIDs handed in are undefined or real CIDs, Tsize is a uint64, and a block
+    that gets decoded is shorter than 2^64 bytes. *)
+From Coq Require Import List ZArith Bool Sorted Permutation.
+From V Require Import lib.Verdict lib.C11_DagPb model.M_C11
+  proofs.P_C11_sort proofs.P_C11_codec proofs.P_C11.
 Import ListNotations.
 Open Scope Z_scope.
 
+(** For EVERY history of AddRawLink/AddNodeLink, RemoveNodeLink, SetData,
+    SetCidBuilder (nil or not), SetLinks, Copy, UpdateNodeLink, re-decoding, with
+    Cid/RawData/Links/Data/Tree/DecodeProtobuf reads interleaved anywhere, the
+    ProtoNode with its caches (defect switch off) answers every call exactly like
+    the cache-free specification: Cid = H(current builder, encode(sorted current
+    links, current data)), RawData = that encoding, Links = stable sort of the
+    insertion-ordered links, DecodeProtobuf(RawData) = (data, sorted links). *)
+Theorem C11_refines : forall (H : Z -> bytes -> Z) d0 ops,
+  hist_ok (afresh d0) ops ->
+  snd (run flags_off H (fresh d0) ops) = snd (arun H (afresh d0) ops).
+Proof. exact refines. Qed.
+Print Assumptions C11_refines.
+
+(** No stale CID, no stale encoding: after every history the CID is the hash of
+    the encoding of what the node holds NOW, under the builder it has NOW. *)
+Theorem C11_cid_fresh : forall (H : Z -> bytes -> Z) d0 ops,
+  hist_ok (afresh d0) ops ->
+  let n := fst (run flags_off H (fresh d0) ops) in
+  snd (step flags_off H n RCid) = BCid (H (n_builder n) (encode (sort_links (n_links n)) (n_data n))) /\
+  snd (step flags_off H n RRaw) = BRaw (encode (sort_links (n_links n)) (n_data n)).
+Proof. exact cid_fresh. Qed.
+Print Assumptions C11_cid_fresh.
+
+(** Decoding the encoding gives back the same data (nil stays nil, empty stays
+    empty) and the same links: for every link list (any names, also empty and
+    duplicate ones) with Tsize <= 2^63-1. *)
+Theorem C11_roundtrip : forall ls d,
+  (forall l, In l ls -> cid_valid (l_cid l) /\ 0 <= l_size l <= max_int64) ->
+  len (encode (sort_links ls) d) < two64 ->
+  decode (encode (sort_links ls) d) = Some (d, sort_links ls).
+Proof. exact roundtrip. Qed.
+Print Assumptions C11_roundtrip.
+
+(** ... and so does DecodeProtobuf(RawData()) after every history. *)
+Theorem C11_roundtrip_hist : forall (H : Z -> bytes -> Z) d0 ops,
+  hist_ok (afresh d0) (ops ++ [RDecode]) ->
+  let n := fst (run flags_off H (fresh d0) ops) in
+  snd (step flags_off H n RDecode) = BDecode (Some (n_data n, sort_links (n_links n))).
+Proof. exact roundtrip_hist. Qed.
+Print Assumptions C11_roundtrip_hist.
+
+(** The serialized order is THE stable sort by bytewise name: sorted, every group
+    of equal names in insertion order, a permutation — and nothing else is. *)
+Theorem C11_sorted_stable : forall ls,
+  Sorted name_le (sort_links ls) /\
+  (forall k, filter (name_is k) (sort_links ls) = filter (name_is k) ls) /\
+  Permutation ls (sort_links ls) /\
+  (forall s, Sorted name_le s -> (forall k, filter (name_is k) s = filter (name_is k) ls) -> s = sort_links ls).
+Proof. exact sorted_stable. Qed.
+Print Assumptions C11_sorted_stable.
+
+(** Same data, same named links (distinct names), any insertion order: identical bytes. *)
+Theorem C11_order_independent : forall l1 l2 d,
+  Permutation l1 l2 -> NoDup (map l_name l1) ->
+  encode (sort_links l1) d = encode (sort_links l2) d.
+Proof. exact order_independent. Qed.
+Print Assumptions C11_order_independent.
+
+(** ... stated on the node: adding the links in the order [l1] and reading RawData
+    and Cid gives the canonical bytes, which are those of any reordering [l2]. *)
+Theorem C11_order_independent_hist : forall (H : Z -> bytes -> Z) d l1 l2,
+  Permutation l1 l2 -> NoDup (map l_name l1) ->
+  forallb link_ok l1 = true -> Forall link_in_ok l1 ->
+  snd (run flags_off H (fresh d) (adds l1 ++ [RRaw; RCid])) =
+  map (fun _ => BOk) l1 ++ [BRaw (encode (sort_links l1) d); BCid (H 0 (encode (sort_links l1) d))] /\
+  encode (sort_links l1) d = encode (sort_links l2) d.
+Proof. exact order_independent_hist. Qed.
+Print Assumptions C11_order_independent_hist.
+
+(** The varint encoder's explicit fuel is never what stops it. *)
+Theorem C11_varint_total : forall n r, 0 <= n < two64 -> uvarint (varint n ++ r) = Some (n, r).
+Proof. exact uvarint_varint. Qed.
+Print Assumptions C11_varint_total.
+
+(** Finding C11-1: with SetCidBuilder(nil) keeping the cached CID (defect switch
+    on = node.go before fixes/C11-1.patch) there is a history after which Cid()
+    is NOT the hash of the current encoding under the current builder. *)
 Theorem C11_builder_nil_refuted :
   exists (H : Z -> bytes -> Z) d0 ops n obs,
+    hist_ok (afresh d0) ops /\
     run flags_on H (fresh d0) ops = (n, obs) /\
     snd (step flags_on H n RCid) <> BCid (H (n_builder n) (encode (sort_links (n_links n)) (n_data n))).
 Proof. exact builder_nil_refuted. Qed.
 Print Assumptions C11_builder_nil_refuted.
+
+(** ---------- non-vacuity ---------- *)
+Definition ex_cid_short : bytes := [1; 85; 0; 1; 120].           (* bafkqaala : CIDv1 raw identity "x" *)
+Definition ex_cid_v0 : bytes := 18 :: 32 :: repeat 7 32.         (* a CIDv0 *)
+
+Example C11_ex_cids_valid : cid_valid ex_cid_short /\ cid_valid ex_cid_v0.
+Proof. split; vm_compute; reflexivity. Qed.
+
+(** a history with duplicate and empty names, a Tsize of 2^63-1, builder changes
+    incl. nil, a removal, a re-decode: it satisfies [hist_ok] ... *)
+Definition ex_ops : list op :=
+  [OAdd [98] 9223372036854775807 ex_cid_short; OAdd [] 0 ex_cid_v0; OAdd [98] 300 ex_cid_v0;
+   OSetBuilder (Some 1); RCid; OSetBuilder None; RCid; ORemove []; RLinks; OAdd [97] 128 ex_cid_short;
+   ORedecode; OSetData None; RDecode].
+
+Example C11_ex_hist_ok : hist_ok (afresh (Some [1; 2])) ex_ops.
+Proof. vm_compute. intuition discriminate. Qed.
+
+(** ... and the bytes of the encoder are concrete dag-pb (the Go harness compares
+    them with RawData() on every run): one link "a" -> bafkqaala, Tsize 300, data "hi" *)
+Example C11_ex_bytes :
+  encode (sort_links [mkLink [97] 300 ex_cid_short]) (Some [104; 105]) =
+  [18; 13; 10; 5; 1; 85; 0; 1; 120; 18; 1; 97; 24; 172; 2; 10; 2; 104; 105].
+Proof. vm_compute. reflexivity. Qed.
+
+Example C11_ex_stable :
+  map l_size (sort_links [mkLink [98] 1 ex_cid_short; mkLink [97] 2 ex_cid_short; mkLink [98] 3 ex_cid_short;
+                          mkLink [] 4 ex_cid_short; mkLink [97] 5 ex_cid_short]) = [4; 2; 5; 1; 3].
+Proof. vm_compute. reflexivity. Qed.
